@@ -209,6 +209,8 @@ class Pure:
                 return V(flit(v), "F", v, True)
             if isinstance(v, str):
                 return V('""', "str")
+            if isinstance(v, bytes) and v == b"":
+                return V("[]", "bytes")
             bad(e, "unsupported constant")
         if isinstance(e, ast.JoinedStr):
             return V('""', "str")
